@@ -28,6 +28,23 @@ TECH = ("contract-based deductive verification: sidecar pre/postconditions on th
         "VCs generated from /repo's AST by pyvc, discharged by z3/cvc5")
 
 PROPS = {
+    "C02": {
+        "technique": TECH + "; rule HOM (per-character instance + concatenation lemma) for str.replace chains",
+        "level_text": "The convert-and-escape routine emitted into every render function (__quote, K2 "
+                      "text re-read from compiler.py) is proved for all values and all four quote modes: "
+                      "dispatch (None/default/numbers/__html__/translate-once) on the whole value space, "
+                      "and the string branch on a symbolic single character (no raw <, >, quote; every & "
+                      "starts a known entity; un-escaping gives the character back).",
+        "level_note": "Trusted: lemma HOM-2 (single-character replace distributes over concatenation; its "
+                      "side condition is checked on the AST), A-DECODE (decode returns str), A-TRANSLATE "
+                      "(translate returns its argument, a str or None), re search semantics for the "
+                      "5-character class. Not yet decided: the sinks (K3) and the choice of quote entity.",
+        "units": [K("compiler.py::K2.__quote"), K("compiler.py::K2.__quote@char")],
+        "not_decided": ["sinks: which quote/entity each emitted call site passes (pending K3)",
+                        "'same elements and attributes as for a harmless value' follows from G1-G3 by "
+                        "a context argument that is not machine-checked"],
+        "assumptions": COMMON_ASSUMPTIONS + ["A-DECODE", "A-TRANSLATE", "HOM-2"],
+    },
     "C17": {
         "technique": TECH,
         "level_text": "utils.read_bytes is proved, for every byte string, to follow the sniffing order "
